@@ -82,3 +82,36 @@ func init() {
 		RealStub: watchRealStub,
 	}
 }
+
+var pipeRealStub = map[string]string{
+	"d2parser, d2compiler, d2ir, d2graph, d2exporter":                               "real",
+	"d2lib.Compile, d2layouts (nested/grid/sequence/near), dagre and ELK via goja": "real (C25)",
+	"d2svg, d2sketch, d2fonts, textmeasure":                                         "real (C25)",
+	"import file system":      "in-memory fs.FS whose Open is a scheduling point",
+	"caller tasks":            "goroutines released one at a time by the simulator at stage boundaries (start, import, compile, layout per nested graph, render per board)",
+	"map iteration / select":  "runtime seam: a function of the tape, re-derived at every release",
+	"reference":               "separate OS process, different seed, reversed order, no neighbours",
+}
+
+func init() {
+	props["C08"] = propSpec{
+		Engine: "pipesim", Level: "exploration",
+		QuickS: 45, ThoroughS: 900, DetSamples: 12, DetSamplesT: 100,
+		Rule: "one run = one session: 1-3 task specs (scripts harvested from the repository's tests and data in index order plus random picks, or generated scripts with >=3 entries per collection; optional importable files), each executed 2-3 times as caller tasks whose stages the tape interleaves, optionally with font registrations in between, under a per-run map-order/select seam; every execution's canonical graph JSON or error list must equal every other execution of the same spec and a reference from a separate process under another seed. evaluations = executions + reference computations; distinct = distinct (spec, interleaving) pairs.",
+		Assumptions: []string{
+			"the simulator serialises execution: it decides dependence on map order, call order, interleaving at stage boundaries, process identity and history; it cannot observe a data race that needs two threads inside the same instructions (the compiler packages hold no synchronisation and no package-level state written after init)",
+			"inputs are sampled (repository corpus + generator), not enumerated",
+		},
+		RealStub: pipeRealStub,
+	}
+	props["C25"] = propSpec{
+		Engine: "pipesim", Level: "exploration",
+		QuickS: 90, ThoroughS: 1800, DetSamples: 4, DetSamplesT: 40,
+		Rule: "as C08 but through d2lib.Compile (dagre, ELK in ~10% of specs), d2exporter and d2svg.Render of every board, with sketch mode, theme, dark theme, pad and center drawn from the tape; the compared result is the SVG bytes of all boards. Scripts are limited to 2.5 KB quick / 20 KB thorough to bound layout time.",
+		Assumptions: []string{
+			"as C08; shared state that exists here (font registry under its mutex, goldmark instance, dagre plugin options) is exercised in every interleaving at stage granularity, not at instruction granularity",
+			"Math.random inside the bundled JS engines would draw from the seam (runtime.rand) and show as a cross-seed difference",
+		},
+		RealStub: pipeRealStub,
+	}
+}
